@@ -117,10 +117,9 @@ def tracer_frames(rng, tier):
         try:
             x2 = T.make_utpm(4, 3, 2, rng); x20 = x2.data.copy()
             cg.pushforward([x2])
-            # buffers written by recorded item assignments are rolled back by the sweep by design (Function.pullback STEP 3):
-            # their contents are not "forward values" in the sense of the property; every other node value must survive
-            bufs = [g.args[0].x.data for g in cg.functionList if g.func is operator.setitem and isinstance(g.args[0].x, U)]
-            vals = [(f, f.x.data.copy()) for f in cg.functionList if isinstance(f.x, U) and not any(numpy.shares_memory(f.x.data, b) for b in bufs)]
+            # every node value (buffers included: the sweep rolls them back while it runs and re-applies the writes at its end,
+            # fix 2f23f44) must be what the forward evaluation left
+            vals = [(f, f.x.data.copy()) for f in cg.functionList if isinstance(f.x, U)]
             yb = T.rand_like(cg.dependentFunctionList[0].x, rng); yb0 = yb.data.copy()
             cg.pullback([yb])
         except Exception: continue
